@@ -237,6 +237,11 @@ def leaf_name(n):
     return None
 
 
+def is_arith_op(name):
+    """`<&f32 as std::ops::Div<f32>>::div` and friends"""
+    return bool(re.search(r"ops::(arith::)?(Add|Sub|Mul|Div|Neg)\b", name))
+
+
 def short_callee(name):
     """last path segments of a resolved callee name, without generic noise"""
     s = name
@@ -442,7 +447,7 @@ class Normalizer:
     REPO_FUNCS = {"fround2": "r2", "fround3": "r3"}
 
     def __init__(self, leafmap=None, callmap=None, strict=True):
-        self.leafmap = leafmap or {}
+        self.leafmap = leafmap if leafmap is not None else {}
         self.callmap = callmap or {}
         self.fatoms = []       # (fname, [Rat args], atom id)
         self.unknown = []
@@ -460,6 +465,8 @@ class Normalizer:
     def code(self, n):
         k = n[0]
         if k == "k":
+            if n[3] and n[3].endswith("consts::PI"):
+                return Rat(Poly.atom("PI"))
             try:
                 return Rat(Poly.const(Fraction(n[1])))
             except (ValueError, ZeroDivisionError):
@@ -489,6 +496,11 @@ class Normalizer:
             return self.code(("bin", n[1][1], n[1][2], n[1][3]))
         if k == "call":
             nm = short_callee(n[1])
+            if nm in ("add", "sub", "mul", "div") and is_arith_op(n[1]) and len(n[2]) == 2:
+                a, b = self.code(n[2][0]), self.code(n[2][1])
+                return {"add": a + b, "sub": a - b, "mul": a * b}[nm] if nm != "div" else a.div(b)
+            if nm == "neg" and is_arith_op(n[1]) and len(n[2]) == 1:
+                return Rat(Poly.const(0)) - self.code(n[2][0])
             if nm in self.callmap:
                 sym = self.callmap[nm]
                 if sym is None:      # transparent
@@ -556,6 +568,9 @@ def origin_desc(n, depth=0):
     n = strip(n)
     if depth > 3:
         return ".."
+    if n[0] == "proj" and strip(n[1])[0] == "call" and short_callee(strip(n[1])[1]) == "branch" and n[2][:2] == ("@Continue", ".0"):
+        # `expr?` : name the payload after the fallible call
+        return origin_desc(strip(n[1])[2][0], depth) + "?" + "".join(n[2][2:])
     k = n[0]
     if k == "var" and re.match(r"^_\d+$", n[2]):
         return "tmp"
